@@ -168,32 +168,38 @@ pub fn gen_sequence(conn_tag: usize, o: &SeqOpts) -> Vec<ReqItem> {
         }
         let mut item = ReqItem { spec, malformed: None };
         if o.allow_malformed && close_at != Some(k) && t::chance(1, 10) {
-            // complete, malformed, smaller than the read buffer so that one read consumes it
-            let mut s2 = item.spec.clone();
-            s2.body = None;
-            let mut head = s2.head_bytes();
-            let kind = t::pick(&["bad-version", "no-colon", "cl-non-numeric"]);
-            match kind {
-                "bad-version" => {
-                    let s = String::from_utf8_lossy(&head).replacen("HTTP/1.1", "HTTP/3.9", 1);
-                    head = s.into_bytes();
-                }
-                "no-colon" => {
-                    head.truncate(head.len() - 2);
-                    head.extend_from_slice(b"novalue\r\n\r\n");
-                }
-                _ => {
-                    head.truncate(head.len() - 2);
-                    head.extend_from_slice(b"Content-Length: 1x\r\n\r\n");
-                }
-            }
-            if head.len() < 1000 {
-                item.malformed = Some((kind.to_string(), hex(&head)));
-            }
+            item.malformed = malform(&item.spec);
         }
         out.push(item);
     }
     out
+}
+
+/// a complete but malformed request head (< 1000 bytes, so that one read can consume it) derived from a well-formed one
+pub fn malform(spec: &ReqSpec) -> Option<(String, String)> {
+    let mut s2 = spec.clone();
+    s2.body = None;
+    let mut head = s2.head_bytes();
+    let kind = t::pick(&["bad-version", "no-colon", "cl-non-numeric"]);
+    match kind {
+        "bad-version" => {
+            let s = String::from_utf8_lossy(&head).replacen("HTTP/1.1", "HTTP/3.9", 1);
+            head = s.into_bytes();
+        }
+        "no-colon" => {
+            head.truncate(head.len() - 2);
+            head.extend_from_slice(b"novalue\r\n\r\n");
+        }
+        _ => {
+            head.truncate(head.len() - 2);
+            head.extend_from_slice(b"Content-Length: 1x\r\n\r\n");
+        }
+    }
+    if head.len() < 1000 {
+        Some((kind.to_string(), hex(&head)))
+    } else {
+        None
+    }
 }
 
 /// configure what the dump fang looks up: the union over all requests of the run
